@@ -46,6 +46,24 @@ func (f *frame) call(cc *ssa.CallCommon, res ssa.Value, pos token.Pos) (*Val, er
 		// a function value that travelled through memory as a term: recover what it denotes
 		if known, ok := f.symCells()["fn:"+cv.T.String()]; ok {
 			cv = known
+		} else if f.c != nil {
+			r := cv.T
+			for i := 0; i < 6; i++ {
+				if r.Op == "" && r.Name != "" {
+					if d, ok := f.c.defined[r.Name]; ok {
+						r = d
+						continue
+					}
+				}
+				if r2 := f.reduceSel(r); r2 != r {
+					r = r2
+					continue
+				}
+				break
+			}
+			if known, ok := f.symCells()["fn:"+r.String()]; ok {
+				cv = known
+			}
 		}
 	}
 	if cv.Clo != nil && cv.Clo.Fn != nil {
@@ -54,7 +72,11 @@ func (f *frame) call(cc *ssa.CallCommon, res ssa.Value, pos token.Pos) (*Val, er
 	if cv.Clo != nil && cv.Clo.Param != "" {
 		return f.callback(cv.Clo, args, cc.Signature(), pos)
 	}
-	return nil, unsupported("call of an unknown function value")
+	desc := ""
+	if cv.T != nil {
+		desc = truncate(cv.T.String(), 160)
+	}
+	return nil, unsupported("call of an unknown function value %s", desc)
 }
 
 func resultVal(sig *types.Signature, ts []*Term) *Val {
@@ -243,7 +265,8 @@ func (f *frame) callFunc(fn *ssa.Function, bindings []*Val, args []*Val, res ssa
 	if fc := f.e.contractFor(f.pkg, fn); fc != nil && !f.inline[fn.Name()] && !(f.top && fn == f.fn && false) {
 		return f.callContract(fc, fn, args, pos)
 	}
-	if len(fn.Blocks) > 0 && (f.e.inModule(fn) || fn.Parent() != nil || f.inline[fn.Name()]) {
+	if len(fn.Blocks) > 0 && (f.e.inModule(fn) || fn.Parent() != nil || f.inline[fn.Name()] ||
+		(fn.Synthetic != "" && (strings.HasSuffix(fn.Name(), "$bound") || strings.HasSuffix(fn.Name(), "$thunk")))) {
 		if f.depth >= 6 {
 			return nil, unsupported("inlining depth exceeded at %s", fn.Name())
 		}
@@ -737,11 +760,13 @@ func (e *Engine) modKeys(callee *ssa.Function, ml modLoc) ([]string, error) {
 					return []string{e.regKey("MD:"+typeKey(ft.Underlying()), e.Sorts.ArrOf(SRef, e.Sorts.ArrOf(ks, SBool))),
 						e.regKey("MV:"+typeKey(ft.Underlying()), e.Sorts.ArrOf(SRef, e.Sorts.ArrOf(ks, vs)))}, nil
 				}
-				fp, ok := st.Field(i).Type().Underlying().(*types.Pointer)
-				if !ok {
-					return nil, fmt.Errorf("modifies: field %s is not a pointer", v)
+				if fp, ok := st.Field(i).Type().Underlying().(*types.Pointer); ok {
+					et = fp.Elem()
+				} else if _, ok := st.Field(i).Type().Underlying().(*types.Struct); ok {
+					et = st.Field(i).Type() // a struct-valued field: the path continues inside it
+				} else {
+					return nil, fmt.Errorf("modifies: field %s is neither a pointer nor a struct", v)
 				}
-				et = fp.Elem()
 				found = true
 			}
 		}
@@ -1596,20 +1621,36 @@ func (f *frame) modRef(callee *ssa.Function, ml modLoc, arg *Val, st *State) (*T
 		return nil, unsupported("modifies through a symbolic (interior) pointer")
 	}
 	ref := arg.T
+	var sval *Term // non-nil while the path is inside a struct VALUE (a struct-typed field)
 	et := callee.Params[ml.param].Type().Underlying().(*types.Pointer).Elem()
 	for _, v := range ml.via {
-		stt := et.Underlying().(*types.Struct)
+		stt, ok := et.Underlying().(*types.Struct)
+		if !ok {
+			return nil, unsupported("modifies path through a non-struct")
+		}
 		for i := 0; i < stt.NumFields(); i++ {
 			if stt.Field(i).Name() == v {
-				key := f.e.fieldKey(et, i)
-				arr := f.get(st, key, f.e.keySort[key])
-				ref = Select(arr, ref)
-				if pt, ok := stt.Field(i).Type().Underlying().(*types.Pointer); ok {
-					et = pt.Elem()
+				var val *Term
+				if sval != nil {
+					val = SelField(sval, i)
+				} else {
+					key := f.e.fieldKey(et, i)
+					val = Select(f.get(st, key, f.e.keySort[key]), ref)
+				}
+				ft := stt.Field(i).Type()
+				if pt, ok := ft.Underlying().(*types.Pointer); ok {
+					et, ref, sval = pt.Elem(), val, nil
+				} else if _, ok := ft.Underlying().(*types.Struct); ok {
+					et, sval = ft, val
+				} else {
+					ref, sval = val, nil // a map (or other reference) at the end of the path
 				}
 				break
 			}
 		}
+	}
+	if sval != nil {
+		return nil, unsupported("modifies path ends inside a struct value")
 	}
 	return ref, nil
 }
